@@ -359,10 +359,15 @@ def execute(trace, ctx=None):
         loop.call_later(d, fut_finish, fut, i)
         return fut
 
+    kept = {}               # healthy long-lived awaitables of the caller that survive a failed first round
+
     def make_leaf(i):
         if i in objs:
             # the same trace leaf referenced twice can only happen after shrinking; share the object
             return objs[i]
+        if gen['n'] == 2 and i in kept:
+            objs[i] = kept[i]
+            return kept[i]
         leaf = leaves[i]
         k = leaf['kind']
         if k == 'sleep':
@@ -474,8 +479,18 @@ def execute(trace, ctx=None):
             leaf = leaves[i]
             if leaf['kind'] == 'nested':
                 return expected(leaf['sub']) if leaf.get('sub') is not None else []
+            def kept_result(j):
+                tgt_ = kept[j].fut if isinstance(kept[j], _Custom) else kept[j]
+                try:
+                    return tgt_.result()
+                except BaseException:
+                    return ['kept-awaitable-did-not-finish-normally', j]
+            if gen['n'] == 2 and i in kept:
+                return kept_result(i)
             if leaf['kind'] == 'shared' and leaf.get('of') is not None and leaf['of'] in objs \
                     and leaves[leaf['of']]['kind'] in ('future', 'done', 'task') and objs.get(i) is objs.get(leaf['of']):
+                if gen['n'] == 2 and leaf['of'] in kept:
+                    return kept_result(leaf['of'])
                 return result_of(leaf['of'])
             return result_of(i)
         items = [expected(x) for x in node['items']]
@@ -508,12 +523,24 @@ def execute(trace, ctx=None):
                 # gather leaves the siblings of a failed awaitable running: a sensible caller lets them finish before
                 # it touches the containers they are reading
                 await asyncio.sleep(4000)
+                # the caller replaces what failed; its other long-lived futures / tasks stay where they are and must still
+                # be usable (nobody but their owner may cancel them)
+                bad_ = set(raise_on) | set(cancel_at)
+                for i_, o_ in list(objs.items()):
+                    lf_ = leaves[i_]
+                    if lf_['kind'] in ('future', 'task', 'custom') and i_ not in bad_ and not lf_.get('res'):
+                        kept[i_] = o_
+                if kept:
+                    res.probe('healthy-awaitables-reused-after-failure')
             box['exp1'] = None
             box['r1_ok'] = True
             gen['n'] = 2
             objs.clear(); done_events.clear()
+            for i_ in kept:
+                ev(i_).set()         # they are finished already: whoever waits for them may go ahead
             recording['on'] = False
             value2 = refill(structure)
+            box['round2'] = True         # from here on nothing is faulty any more: the second attempt must succeed
             r2 = await waiter(value2)
             return ('two-rounds', None, r2)
         r1 = await waiter(value)
@@ -598,10 +625,15 @@ def execute(trace, ctx=None):
             if not _same(val, exp):
                 raise Violation('wrong-result', 'got %r expected %r (completion order %s)' % (val, exp, finished))
             for i in sorted(set(used)):
+                if i in kept:
+                    continue
                 if leaves[i]['kind'] in ('sleep', 'imm', 'gen', 'twostage', 'dep', 'nested', 'task') and started[(i, last_gen)] != 1:
                     raise Violation('leaf-start-count', 'leaf %d (%s) started %d times' % (i, leaves[i]['kind'], started[(i, last_gen)]))
             if never:
                 raise Violation('leaf-start-count', 'coroutine leaves never awaited: %s' % never)
+        elif box.get('round2') and kind != 'ok':
+            raise Violation('second-round-failed', 'after a failed first attempt the caller replaced what had failed and waited again: waiter raised %s: %s '
+                            '(its healthy awaitables must still be usable)' % (type(val).__name__, val))
         else:
             if kind == 'ok':
                 fired_bad = set()
@@ -823,7 +855,7 @@ RULE = ('one case = one (structure, leaf kinds, delays, fault list, scheduler ta
         'non-trivial = at least 2 awaitable leaves and, in a fault configuration, at least one fault that actually fired; '
         'distinct = distinct digest of (trace, observed completion order, result)')
 PROBES = ['later-listed-completes-first', 'tie-broken-by-scheduler', 'timer-fired-late', 'dict-values-complete-out-of-key-order',
-          'nested-depth>=3', 'same-awaitable-twice', 'leaf-depends-on-other-leaf', 'second-round-on-same-containers', 'same-container-twice', 'second-round-after-failed-first']
+          'nested-depth>=3', 'same-awaitable-twice', 'leaf-depends-on-other-leaf', 'second-round-on-same-containers', 'same-container-twice', 'second-round-after-failed-first', 'healthy-awaitables-reused-after-failure']
 TIERS = {'quick': {'runs': 40000, 'wallcap': 45}, 'thorough': {'runs': 4000000, 'wallcap': 780}}
 ASSUMPTIONS = ['only legal asyncio schedules are generated: FIFO call_soon, timers never early, seeded lateness and tie order',
                'only the waiter clause of C19 is decided here; the lifting/zipper/as_list clauses are pure and not covered']
